@@ -458,3 +458,41 @@ func runC06(c *Ctx) {
 		}
 	}
 }
+
+// C11H: the HTTP half of C11 — source address x client-supplied address x spoofing x header.
+func init() { gens["C11H"] = &Gen{Run: runC11H, Replay: replayC06} }
+
+func runC11H(c *Ctx) {
+	for _, l := range c.CorpusLines() {
+		op, a := parseOp(l)
+		replayC06(c, op, a)
+	}
+	r := c.R
+	base := "/announce?info_hash=%01%02%03%04%05%06%07%08%09%0a%0b%0c%0d%0e%0f%10%11%12%13%14&peer_id=-TR2940-abcdefghijkl&downloaded=0&uploaded=0&port=6881&left=1"
+	for _, remote := range sampleRemotes {
+		for _, spoof := range []bool{false, true} {
+			for _, hdrName := range []string{"", "X-Real-Ip"} {
+				for _, hdr := range []string{"", "8.8.8.8", "2001:db8::8", "::ffff:8.8.4.4", "junk"} {
+					for _, keys := range [][]string{{}, {"ip"}, {"ipv4"}, {"ipv6"}, {"ip", "ipv6"}, {"ipv4", "ipv6"}, {"ipv6", "ip"}, {"IP"}, {"ip", "ip"}} {
+						hc := httpCase{remoteAddr: remote, spoof: spoof, hdrName: hdrName, hdrVal: hdr, maxnw: 100, defnw: 50, maxsc: 50, uri: base}
+						for _, k := range keys {
+							hc.uri += "&" + k + "=" + escStr(r, sampleIPs[r.Intn(len(sampleIPs))], false)
+						}
+						httpAnnounce(c, hc)
+						c.Kind("grid")
+					}
+				}
+			}
+		}
+	}
+	for i := 0; i < c.N; i++ {
+		hc := randCase(r)
+		hc.spoof = r.Bool()
+		hc.uri = renderedAnnounce(r)
+		if r.Bool() {
+			hc.uri += "&" + []string{"ip", "ipv4", "ipv6"}[r.Intn(3)] + "=" + escStr(r, sampleIPs[r.Intn(len(sampleIPs))], false)
+		}
+		httpAnnounce(c, hc)
+		c.Kind("rendered")
+	}
+}
